@@ -11,17 +11,19 @@ use vl_model::wire::*;
 
 pub const RULE: &str = "request sequences over the 76-symbol alphabet (19 kinds x {none,more,oneway,more+oneway}); \
 every sequence up to the tier's length bound at every pipelining depth 1..len through handle(), random \
-longer ones (len 3..24, random depth, three JSON spellings), and random sequences through a real unix \
-socket served by listen() with a sentinel request deciding whether the connection stayed open. \
+longer ones (len 3..24, random depth, five JSON spellings incl. unset flags spelled false and an `upgrade: true` wish on methods that do not upgrade), \
+random sequences through a real unix socket served by listen() with a sentinel request deciding whether the connection stayed open, \
+and long pipelines (33..400 requests in one handle() call / one socket write). \
 Non-trivial: depth >= 2 (at least two requests in flight) and an error-producing or streaming request \
 precedes another request in the same in-flight group; distinct by (symbol sequence, depth, transport).";
 
 pub fn style_of(mode: u8, i: usize) -> Style {
-    match mode % 5 {
+    match mode % 6 {
         0 => Style::Compact,
         1 => Style::Spaced,
         2 => Style::FlagsLast,
         3 => Style::FlagsFalse,
+        5 => Style::UpgradeWish,
         _ => [Style::Compact, Style::FlagsFalse, Style::Spaced, Style::FlagsLast][i % 4],
     }
 }
@@ -106,7 +108,7 @@ fn exhaustive(ctx: &mut Ctx, maxlen: usize) {
                 }
                 for depth in 1..=len {
                   // every JSON spelling for the short sequences, the compact one beyond
-                  for style in 0..(if len <= 2 { 4u8 } else { 1u8 }) {
+                  for style in if len <= 2 { &[0u8, 1, 2, 3, 5][..] } else { &[0u8][..] }.iter().cloned() {
                     let nt = nontrivial(&syms, depth);
                     acc.case(if nt {
                         Some(hash64(&(&syms, depth, style, "mem")))
@@ -163,7 +165,7 @@ pub fn seq_strategy(
     (
         prop::collection::vec((0..n, 0..m), lo..=hi),
         any::<prop::sample::Index>(),
-        0u8..5,
+        0u8..6,
         0u8..10,
     )
         .prop_map(move |(ix, d, style, mode)| {
@@ -385,6 +387,51 @@ fn random_sock(ctx: &mut Ctx, cases: u32) {
     }
 }
 
+/// Long pipelines: 33..400 requests that keep the connection open, all handed to one handle() call and
+/// written to the socket in one piece (per-call or per-read limits only show beyond a few dozen requests).
+fn long_pipelines(ctx: &mut Ctx, cases_mem: u32, cases_sock: u32) {
+    let open: Vec<Sym> = alphabet().into_iter().filter(|s| !closes(s)).collect();
+    let m = open.len();
+    let strat = (prop::collection::vec(0..m, 33..=400), any::<prop::sample::Index>(), 0u8..6, any::<bool>()).prop_map(move |(ix, d, style, whole)| {
+        let syms: Vec<Sym> = ix.into_iter().map(|j| open[j]).collect();
+        let depth = if whole { syms.len() } else { 33 + d.index(syms.len() - 32) };
+        (syms, depth, style)
+    });
+    let (svc, _probe) = t_service();
+    let r = pt::check_with(ctx, "c01-mem-long", cases_mem, 300, 60_000, strat.clone(), |ctx, (syms, depth, style)| {
+        ctx.case(Some(hash64(&(syms, depth, "mem-long"))));
+        ctx.class("mem:long-pipeline");
+        run_mem(&svc, syms, *depth, *style)?;
+        Ok(())
+    });
+    if let Some(((syms, depth, style), f)) = r {
+        ctx.violation(&f.key, &f.what, "c01-mem", case_json(&syms, depth, style, "mem"));
+        return;
+    }
+    let scratch = Scratch::new("c01l");
+    let addr = scratch.unix_addr("c01l.sock");
+    let (svc, _probe) = t_service();
+    let server = Server::start(svc, &addr, 2, 8, 0);
+    let r = pt::check_with(ctx, "c01-sock-long", cases_sock, 60, 60_000, strat, |ctx, (syms, depth, style)| {
+        ctx.case(Some(hash64(&(syms, depth, "sock-long"))));
+        match run_sock(&addr, syms, *depth, *style, "listen")? {
+            SockOutcome::Checked(_) => ctx.class("sock:long-pipeline"),
+            SockOutcome::Hung => match run_sock(&addr, syms, *depth, *style, "listen")? {
+                SockOutcome::Checked(_) => ctx.class("sock:hang-not-reproduced"),
+                SockOutcome::Hung => {
+                    ctx.class("sock:hang");
+                    ctx.inconclusive("a long pipeline over the socket hung twice (no reply, no EOF, sentinel unanswered)");
+                }
+            },
+        }
+        Ok(())
+    });
+    if let Some(((syms, depth, style), f)) = r {
+        ctx.violation(&f.key, &f.what, "c01-sock", case_json(&syms, depth, style, "unix"));
+    }
+    let _ = server.stop();
+}
+
 fn replay(ctx: &mut Ctx, v: &Value) {
     let case = &v["case"];
     let syms = syms_from_json(&case["requests"]);
@@ -487,6 +534,10 @@ pub fn run(args: &Args) -> ! {
     ctx.bump_sample_cap(6);
     let n = ctx.tier.pick(6_000, 20_000);
     random_sock(&mut ctx, n);
+    if !ctx.failed() {
+        let (nm, ns) = (ctx.tier.pick(300, 3_000), ctx.tier.pick(60, 600));
+        long_pipelines(&mut ctx, nm, ns);
+    }
     ctx.exhaustive = Some(false);
     ctx.finish()
 }
